@@ -62,8 +62,8 @@ type scfOut struct {
 }
 
 type scLine struct {
-	ID  int              `json:"id"`
-	Key json.RawMessage  `json:"key"`
+	ID  int               `json:"id"`
+	Key json.RawMessage   `json:"key"`
 	Out map[string]scfOut `json:"out"`
 }
 
@@ -322,21 +322,24 @@ func scRun(fs afero.Fs, kind, file, text string) (out scfOut) {
 	return out
 }
 
-// The four main styles are rendered for every case.  Format selection by file extension is independent of the
-// content, so the two further documented extensions are exercised on a share of the cases only (which share
-// rotates with VERIF_SEED): the plain YAML text under `.yml` on every 8th case, a JSON document under `.json` on
-// every 4th.
+// The four main styles are rendered for every case.  The two further HCL convenience styles -- collection
+// functions without any locals block (hclf), locals spread over several blocks without functions (hclv) -- take
+// alternate cases.  Format selection by file extension is independent of the content, so the two further documented
+// extensions are exercised on a smaller share: the plain YAML text under `.yml` on every 8th case, a JSON document
+// under `.json` on every 4th.  Which cases rotates with VERIF_SEED; `-allstyles` renders everything for every case.
 var scStyles = []struct {
-	name, ext string
-	every     int
-	render    func(scDesc) string
+	name, ext    string
+	every, phase int
+	render       func(d scDesc, rot int) string
 }{
-	{"hcl", "hcl", 1, renderHCL},
-	{"hcll", "hcl", 1, renderHCLLocals},
-	{"yaml", "yaml", 1, renderYAML},
-	{"yamla", "yaml", 1, renderYAMLAnchors},
-	{"yml", "yml", 8, renderYAML},
-	{"json", "json", 4, renderJSON},
+	{"hcl", "hcl", 1, 0, func(d scDesc, _ int) string { return renderHCL(d) }},
+	{"hcll", "hcl", 1, 0, func(d scDesc, rot int) string { return renderHCLGen(d, rot, true, true) }},
+	{"yaml", "yaml", 1, 0, func(d scDesc, _ int) string { return renderYAML(d) }},
+	{"yamla", "yaml", 1, 0, func(d scDesc, _ int) string { return renderYAMLAnchors(d) }},
+	{"hclf", "hcl", 2, 0, func(d scDesc, rot int) string { return renderHCLGen(d, rot, false, true) }},
+	{"hclv", "hcl", 2, 1, func(d scDesc, rot int) string { return renderHCLGen(d, rot, true, false) }},
+	{"yml", "yml", 8, 0, func(d scDesc, _ int) string { return renderYAML(d) }},
+	{"json", "json", 4, 0, func(d scDesc, _ int) string { return renderJSON(d) }},
 }
 
 func scenconfigMain(args []string) {
@@ -353,7 +356,7 @@ func scenconfigMain(args []string) {
 	}
 	if *allStyles {
 		for i := range scStyles {
-			scStyles[i].every = 1
+			scStyles[i].every, scStyles[i].phase = 1, 0
 		}
 	}
 	fs := afero.NewMemMapFs()
@@ -430,10 +433,11 @@ func scOne(fs afero.Fs, wk, id int, c scCase) (scLine, map[string]string) {
 	rendered := map[string]string{}
 	full := map[string]scfOut{}
 	for i, st := range scStyles {
-		if (id+scSeed())%st.every != 0 {
+		if (id+scSeed())%st.every != st.phase {
 			continue
 		}
-		text := st.render(c.Desc)
+		// the conveniences rotate with the seed and the case number
+		text := st.render(c.Desc, 7*scSeed()+id)
 		rendered[st.name] = text
 		o := scRun(fs, c.Desc.Kind, fmt.Sprintf("/case%d/%s.%s", wk, st.name, st.ext), text)
 		full[st.name] = o
